@@ -981,6 +981,143 @@ fn cmd_glyf(args: &[String]) {
 }
 
 // ------------------------------------------------------------------------------------------------
+// fallback spaces: a space character the font does not map is shown with the font's U+0020 glyph and an
+// advance derived from the em, the digits or the punctuation - along the run axis, with the axis' sign
+
+/// `c16 spaces --seed S --n N --per K`: fonts without layout tables that map U+0020, some digits, '.' / ',' and a few
+/// letters, and only SOME of the typographic spaces; texts mixing letters and spaces, all directions.  Every
+/// glyph is compared with what the font's own tables prescribe.
+fn cmd_spaces(args: &[String]) {
+    let seed = arg_u64(args, "--seed", 1);
+    let n = arg_u64(args, "--n", 50);
+    let per = arg_u64(args, "--per", 8);
+    let mut rng = Rng::new(seed ^ 0x5BAC);
+    const SPACES: &[(u32, u32)] = &[
+        // (code point, kind): 1..6, 16 = em / kind; 17 = 4/18 em; 19 figure; 20 punctuation; 21 narrow; 18 plain space
+        (0x00A0, 18), (0x2000, 2), (0x2001, 1), (0x2002, 2), (0x2003, 1), (0x2004, 3), (0x2005, 4), (0x2006, 6), (0x2007, 19),
+        (0x2008, 20), (0x2009, 5), (0x200A, 16), (0x202F, 21), (0x205F, 17), (0x3000, 1),
+    ];
+    let (mut shapes, mut glyphs, mut vertical, mut nontrivial, mut viol) = (0u64, 0u64, 0u64, 0u64, 0u64);
+    for fi in 0..n {
+        // glyphs: 0 notdef, 1 space, 2.. letters a b c, then digits / punctuation / own glyphs of some spaces
+        let mut cmap: Vec<(u32, u16)> = vec![(0x20, 1), (0x61, 2), (0x62, 3), (0x63, 4)];
+        let mut next = 5u16;
+        for d in 0x30..=0x39u32 {
+            if rng.chance(1, 3) {
+                cmap.push((d, next));
+                next += 1;
+            }
+        }
+        for p in [0x2Eu32, 0x2C] {
+            if rng.chance(1, 2) {
+                cmap.push((p, next));
+                next += 1;
+            }
+        }
+        for (sp, _) in SPACES {
+            if rng.chance(1, 6) {
+                cmap.push((*sp, next));
+                next += 1;
+            }
+        }
+        cmap.sort();
+        let mut spec = FontSpec::basic(next);
+        spec.cmap = cmap.clone();
+        spec.units_per_em = *rng.pick(&[1000u16, 2048, 16, 999]);
+        spec.hadv = (0..next).map(|_| rng.range(0, 1500) as u16).collect();
+        spec.ascender = rng.range(300, 1200) as i16;
+        spec.descender = -(rng.range(0, 500) as i16);
+        if rng.chance(1, 2) {
+            spec.vmetrics = Some(VMetrics { ascender: 500, descender: -500, line_gap: 0, vadv: (0..next).map(|_| rng.range(0, 2500) as u16).collect() });
+        }
+        let bytes = build(&spec);
+        let Some(face) = Face::from_slice(&bytes, 0) else {
+            println!("anomaly spaces-font {} rejected", fi);
+            continue;
+        };
+        let gid_of = |c: u32| -> Option<u16> { cmap.iter().find(|e| e.0 == c).map(|e| e.1) };
+        let hadv = |g: u16| spec.hadv[g as usize] as i32;
+        let vadv = |g: u16| match &spec.vmetrics { Some(vm) => vm.vadv[g as usize] as i32, None => spec.ascender as i32 - spec.descender as i32 };
+        let hx = hex(&bytes);
+        for _ in 0..per {
+            let mut base = Req::default();
+            let len = rng.range(1, 8);
+            for i in 0..len {
+                let c = if rng.chance(1, 2) { rng.pick(SPACES).0 } else { *rng.pick(&[0x61u32, 0x62, 0x63, 0x20]) };
+                base.text.push((c, i as u32));
+            }
+            base.level = rng.below(3) as u8;
+            for d in DIRS {
+                let mut req = base.clone();
+                req.dir = d;
+                let eff = effective_dir(&req);
+                let vert = matches!(eff, Direction::TopToBottom | Direction::BottomToTop);
+                let back = matches!(eff, Direction::RightToLeft | Direction::BottomToTop);
+                let r2 = req.clone();
+                let Ok(out) = catch(std::panic::AssertUnwindSafe(|| shape_req(&face, &r2))) else { continue };
+                shapes += 1;
+                glyphs += out.len() as u64;
+                if vert {
+                    vertical += 1;
+                }
+                let mut bad: Option<String> = None;
+                if out.len() != req.text.len() {
+                    bad = Some(format!("{};glyphs;for;{};characters", out.len(), req.text.len()));
+                }
+                let mut fell_back = false;
+                for (k, g) in out.iter().enumerate() {
+                    if bad.is_some() {
+                        break;
+                    }
+                    let ci = if back { req.text.len() - 1 - k } else { k };
+                    let mut c = req.text[ci].0;
+                    // EN QUAD / EM QUAD are canonical singletons of EN SPACE / EM SPACE: an unmapped quad is shown with
+                    // the glyph of the space it decomposes to when the font has that one
+                    if gid_of(c).is_none() && (c == 0x2000 || c == 0x2001) && gid_of(c + 2).is_some() {
+                        c += 2;
+                    }
+                    let kind = SPACES.iter().find(|e| e.0 == c).map(|e| e.1);
+                    // glyph and the advance along the run axis (unsigned magnitude)
+                    let (gid, along): (u16, i32) = match (gid_of(c), kind) {
+                        (Some(gl), _) => (gl, if vert { vadv(gl) } else { hadv(gl) }),
+                        (None, Some(kd)) => {
+                            fell_back = true;
+                            let sp = 1u16;
+                            let own = if vert { vadv(sp) } else { hadv(sp) };
+                            let upem = spec.units_per_em as i32;
+                            let a = match kd {
+                                1..=6 | 16 => (upem + kd as i32 / 2) / kd as i32,
+                                17 => upem * 4 / 18,
+                                19 => (0x30..=0x39u32).find_map(|dgt| gid_of(dgt)).map(|gl| if vert { vadv(gl) } else { hadv(gl) }).unwrap_or(own),
+                                20 => gid_of(0x2E).or(gid_of(0x2C)).map(|gl| if vert { vadv(gl) } else { hadv(gl) }).unwrap_or(own),
+                                21 => own / 2,
+                                _ => own,
+                            };
+                            (sp, a)
+                        }
+                        (None, None) => (0, if vert { vadv(0) } else { hadv(0) }),
+                    };
+                    let want = if vert { (0, -along, -(hadv(gid) / 2), -(spec.ascender as i32)) } else { (along, 0, 0, 0) };
+                    if g.gid != gid as u32 || (g.xa, g.ya, g.xo, g.yo) != want {
+                        bad = Some(format!("char {:X}: got glyph {} adv {},{} off {},{} want glyph {} adv {},{} off {},{}", c, g.gid, g.xa, g.ya, g.xo, g.yo, gid, want.0, want.1, want.2, want.3).replace(' ', ";"));
+                    }
+                }
+                if fell_back {
+                    nontrivial += 1;
+                }
+                if let Some(b) = bad {
+                    viol += 1;
+                    if viol <= 5 {
+                        println!("viol fonthex={} index=0 var=- req={} dir={} what=fallback-space-metrics:{} nf=- out={}", hx, fmt_req(&req).replace(' ', "~"), dir_name(Some(eff)), b, fmt_out(&out));
+                    }
+                }
+            }
+        }
+    }
+    println!("spaces-summary fonts={} shapes={} glyphs={} vertical={} nontrivial={} viol={}", n, shapes, glyphs, vertical, nontrivial, viol);
+}
+
+// ------------------------------------------------------------------------------------------------
 // single request (replays) and the witness of the known finding
 
 fn cmd_one(args: &[String]) {
@@ -1042,6 +1179,7 @@ pub fn run(args: &[String]) {
         Some("inv") => cmd_inv(rest),
         Some("gen") => cmd_gen(rest),
         Some("glyf") => cmd_glyf(rest),
+        Some("spaces") => cmd_spaces(rest),
         Some("one") => cmd_one(rest),
         Some("witness") => cmd_witness(rest),
         _ => {
